@@ -27,7 +27,7 @@
    C19_lower_vertex_1d_decision); Part C: the estimator object as a state machine (guard of fit,
    refit = fresh fit, scoring after a refit, the non-atomic failed refit, unfitted object). *)
 From Coq Require Import QArith Lqa Sorting.Sorted.
-From Verif Require Import ListX DCH DCHP DCHSpecP DCHChainP DCH1dP DCHExt DCHStrictP DCHExtP DCHInsertP.
+From Verif Require Import ListX DCH DCHP DCHSpecP DCHChainP DCH1dP DCHExt DCHStrictP DCHExtP DCHInsertP DCHScaleP.
 
 (* ============================== Part A: the model under the oracle contract ============== *)
 
@@ -243,6 +243,16 @@ Theorem C19_chain_1d_complete :
     (In (pt1 (nth i P [])) (chain pts) <-> is_lower_vertex 1 P i).
 Proof. exact chain_1d_complete. Qed.
 Print Assumptions C19_chain_1d_complete.
+
+(* ---- follow-up: change of units of the positions ------------------------------------------- *)
+(* multiplying every low-dimensional coordinate by s <> 0 does not change which samples are
+   lower vertices; with C19_affine_target_spec: the selection is invariant under any change of
+   units of target and positions (the check fits power-of-two rescalings 2^+-10 .. 2^+-32) *)
+Theorem C19_position_scale_spec :
+  forall d s P i, s <> 0 -> (i < length P)%nat ->
+    (below_combo d (zpscale s P) i <-> below_combo d P i).
+Proof. exact below_combo_pscale. Qed.
+Print Assumptions C19_position_scale_spec.
 
 (* ---- round 3: the order of the samples ---------------------------------------------------- *)
 (* moving a sample from any index to the end of the sample list does not change which samples
@@ -465,4 +475,15 @@ Proof.
     by exact (proj2 (proj2 (proj2 (proj2 (proj2 C19_nonvacuous_spec))))).
   split; [exact (inserted_point_not_lower 1 [[1; -1]] [[0; 0]; [1; 1]] [2; 0] A)|].
   split; [apply (insert_above_invariant 1 [[1; -1]] [[0; 0]; [1; 1]] [2; 0] 1); [cbn; lia|exact A]|reflexivity].
+Qed.
+
+(* scaling the positions of the example by 1024: same lower vertices *)
+Example C19_nonvacuous_pscale :
+  zpscale 1024 ex_PZ = [[1; -1024]; [0; 0]; [1; 1024]; [2; 0]] /\
+  lower_vertices 1 (zpscale 1024 ex_PZ) = lower_vertices 1 ex_PZ /\
+  below_combo 1 (zpscale 1024 ex_PZ) 3.
+Proof.
+  split; [reflexivity|]. split; [vm_compute; reflexivity|].
+  apply (below_combo_pscale 1 1024 ex_PZ 3); [lia|cbn; lia|].
+  exact (proj1 (proj2 (proj2 (proj2 C19_nonvacuous_spec)))).
 Qed.
